@@ -5,11 +5,17 @@ use crate::mem::{get_executable_memory_slice, memory_read_byte, memory_write_byt
 
 pub fn run_code_block(registers: &mut Registers, mem: *mut MemoryAreas) -> u8 {
   let mut status = cpu::STATUS_NORMAL;
+  let start = registers.ip;
   loop {
     match run_next_op(registers, mem) {
       Some((op_status, should_break)) => {
         status = op_status;
         if should_break {
+          break;
+        }
+        // blocks end where the fixed ROM bank ends, exactly as translated
+        // blocks do (see CodeCache::translate_code_block)
+        if start < 0x4000 && registers.ip >= 0x4000 {
           break;
         }
       },
